@@ -66,6 +66,11 @@ type Sim struct {
 	// broker wrote it (ground truth of what the broker did), whether or not
 	// it is later lost, delayed or rewritten. Called from broker goroutines.
 	OnProcessed []func(*WireResp)
+	// OnWritten sees every request frame at the moment the client wrote it
+	// (the client's own write order across connections), before delivery.
+	// Called from client goroutines; only installed when non-empty at
+	// StartCluster time.
+	OnWritten []func(*WireReq)
 	// Mutate lets a scenario (C21/C22) rewrite raw response frames.
 	Mutate func(c *Conn, ri *reqInfo, frame []byte) (out [][]byte, kill bool)
 
@@ -304,6 +309,7 @@ func Run(t *testing.T, p *plan.Plan, body func(s *Sim)) *plan.Result {
 			s.Net.latMode = p.Knob("latmode", 0)
 			s.Net.dialTimeout = time.Duration(p.Knob("dial_timeout_ms", 10000)) * time.Millisecond
 			s.Net.onServerWrite = s.serverWrote
+			s.Net.onClientWrite = s.clientWrote
 			s.stop = make(chan struct{})
 			s.done = make(chan struct{})
 			for i := range p.Faults {
@@ -1159,6 +1165,23 @@ func traceDigest(parts ...string) string {
 		h.Write([]byte(p))
 	}
 	return fmt.Sprintf("%016x", h.Sum64())
+}
+
+func (s *Sim) clientWrote(c *Conn, frame []byte) {
+	if len(s.OnWritten) == 0 {
+		return
+	}
+	key, ver, corr, cid, body, ok := parseReqHeader(frame)
+	if !ok {
+		return
+	}
+	wr := &WireReq{T: s.Now(), Conn: c, Key: key, Ver: ver, Corr: corr, ClientID: cid, Raw: frame}
+	if key == 0 { // only produce requests are decoded here (cost)
+		wr.Req = decodeReq(key, ver, body)
+	}
+	for _, fn := range s.OnWritten {
+		fn(wr)
+	}
 }
 
 func (s *Sim) serverWrote(c *Conn, frame []byte) {
